@@ -153,21 +153,24 @@ type Step struct {
 }
 
 type CMObs struct {
-	Log   []KV      `json:"log"` // (verb, name)
-	Err   string    `json:"err"`
-	Store []CertObj `json:"store"`
+	Log   []KV       `json:"log"` // (verb, name)
+	Err   string     `json:"err"`
+	Store []CertObj  `json:"store"` // the cluster (object tracker of the fake clientset) after the step
+	Cache *[]CertObj `json:"cache"` // the lister cache before the step, when it differs from the cluster; else null
 }
 
 type DNSObs struct {
-	Log   []KV     `json:"log"`
-	Err   string   `json:"err"`
-	Store []DNSObj `json:"store"`
+	Log   []KV      `json:"log"`
+	Err   string    `json:"err"`
+	Store []DNSObj  `json:"store"`
+	Cache *[]DNSObj `json:"cache"`
 }
 
 type StepObs struct {
 	CM           CMObs    `json:"cm"`
 	DNS          DNSObs   `json:"dns"`
 	Unexpected   []string `json:"unexpected"` // actions on other resources / namespaces, changed decoys
+	CacheMutated []string `json:"cache_mutated"` // lister-cache objects the synchronization changed in place
 	Panic        string   `json:"panic,omitempty"`
 	FreshCert    *CertObj `json:"fresh_cert"`
 	FreshCertErr string   `json:"fresh_cert_err"`
@@ -420,6 +423,13 @@ type world struct {
 	decoyCert *cmapi.Certificate
 	decoyDNS  *extdnsapi.DNSEndpoint
 	dnsKnown  map[string][2]string // ns/name -> (ns, name)
+	// what the watch has delivered into each lister cache so far: ns/name -> JSON of that version.
+	// The cluster is the object tracker of the fake clientset; the caches are the indexers behind the
+	// real generated listers, and the synchronization functions get the very pointers stored there.
+	cmDelivered  map[string][]byte
+	dnsDelivered map[string][]byte
+	lastCerts    []CertObj // projection of the cluster after the last delivery
+	lastDNS      []DNSObj
 }
 
 func isWrite(verb string) bool { return verb == "create" || verb == "update" || verb == "delete" || verb == "patch" }
@@ -457,7 +467,7 @@ func newIndexer() cache.Indexer {
 }
 
 func newWorld(initCerts []CertObj, initDNS []DNSObj, decoyUID string) *world {
-	w := &world{dnsKnown: map[string][2]string{}}
+	w := &world{dnsKnown: map[string][2]string{}, cmDelivered: map[string][]byte{}, dnsDelivered: map[string][]byte{}}
 	var cmObjs, dnsObjs []runtime.Object
 	for _, o := range initCerts {
 		cmObjs = append(cmObjs, buildCert(o, ns))
@@ -505,16 +515,101 @@ func newWorld(initCerts []CertObj, initDNS []DNSObj, decoyUID string) *world {
 	return w
 }
 
-// refresh brings the informer caches in step with the cluster: every object goes through a
-// JSON round trip (what the API server stores and the watch delivers).  Returns the projected
-// stores of namespace ns and a list of complaints about the decoys.
+// deliverTo plays the watch for one cache: an object whose stored version (JSON) differs from the
+// version delivered last is decoded afresh and put into the indexer (add / update event), an object
+// that left the cluster is removed (delete event).  An object the cluster did not change is NOT
+// touched, so whatever a synchronization function did to the pointer it got from the lister stays
+// in the cache, as it does in production.
+func deliverTo(idx cache.Indexer, delivered map[string][]byte, seen map[string][]byte, decode func([]byte) (interface{}, error)) error {
+	for k, b := range seen {
+		if old, ok := delivered[k]; ok && string(old) == string(b) {
+			continue
+		}
+		o, err := decode(b)
+		if err != nil {
+			return err
+		}
+		if err := idx.Update(o); err != nil {
+			return err
+		}
+		delivered[k] = b
+	}
+	for k := range delivered {
+		if _, ok := seen[k]; !ok {
+			if o, exists, _ := idx.GetByKey(k); exists {
+				if err := idx.Delete(o); err != nil {
+					return err
+				}
+			}
+			delete(delivered, k)
+		}
+	}
+	return nil
+}
+
+// snapshot deep-copies every object of both lister caches.
+func (w *world) snapshot() map[string]runtime.Object {
+	out := map[string]runtime.Object{}
+	for _, o := range w.cmIdx.List() {
+		c := o.(*cmapi.Certificate)
+		out["certificates "+c.Namespace+"/"+c.Name] = c.DeepCopy()
+	}
+	for _, o := range w.dnsIdx.List() {
+		d := o.(*extdnsapi.DNSEndpoint)
+		out["dnsendpoints "+d.Namespace+"/"+d.Name] = d.DeepCopy()
+	}
+	return out
+}
+
+// mutated compares the lister caches with a snapshot taken before a synchronization.
+func (w *world) mutated(before map[string]runtime.Object) []string {
+	out := []string{}
+	now := w.snapshot()
+	for k, o := range now {
+		b, ok := before[k]
+		if !ok {
+			out = append(out, k+" (added)")
+		} else if !reflect.DeepEqual(o, b) {
+			out = append(out, k)
+		}
+	}
+	for k := range before {
+		if _, ok := now[k]; !ok {
+			out = append(out, k+" (removed)")
+		}
+	}
+	sort.Strings(out)
+	return out
+}
+
+// cacheView projects what the listers hold for namespace ns.
+func (w *world) cacheView() ([]CertObj, []DNSObj) {
+	certs, dnss := []CertObj{}, []DNSObj{}
+	for _, o := range w.cmIdx.List() {
+		if c := o.(*cmapi.Certificate); c.Namespace == ns {
+			certs = append(certs, projCert(c))
+		}
+	}
+	for _, o := range w.dnsIdx.List() {
+		if d := o.(*extdnsapi.DNSEndpoint); d.Namespace == ns {
+			dnss = append(dnss, projDNS(d))
+		}
+	}
+	sort.Slice(certs, func(i, j int) bool { return certs[i].Name < certs[j].Name })
+	sort.Slice(dnss, func(i, j int) bool { return dnss[i].Name < dnss[j].Name })
+	return certs, dnss
+}
+
+// refresh reads the cluster (the object tracker; every object through the JSON round trip that the
+// API server and the watch perform), delivers the watch events for what changed into the lister
+// caches, and returns the projected cluster content of namespace ns plus complaints about the decoys.
 func (w *world) refresh() ([]CertObj, []DNSObj, []string, error) {
 	var complaints []string
 	cl, err := w.cm.CertmanagerV1().Certificates(metav1.NamespaceAll).List(context.Background(), metav1.ListOptions{})
 	if err != nil {
 		return nil, nil, nil, err
 	}
-	var cobjs []interface{}
+	cseen := map[string][]byte{}
 	certs := []CertObj{}
 	seenDecoy := w.decoyCert == nil
 	for i := range cl.Items {
@@ -526,7 +621,7 @@ func (w *world) refresh() ([]CertObj, []DNSObj, []string, error) {
 		if err := json.Unmarshal(b, c); err != nil {
 			return nil, nil, nil, err
 		}
-		cobjs = append(cobjs, c)
+		cseen[c.Namespace+"/"+c.Name] = b
 		if c.Namespace == ns {
 			certs = append(certs, projCert(c))
 		} else if w.decoyCert != nil && c.Namespace == otherNs && c.Name == w.decoyCert.Name {
@@ -565,7 +660,7 @@ func (w *world) refresh() ([]CertObj, []DNSObj, []string, error) {
 		}
 		dl.Items = append(dl.Items, *d)
 	}
-	var dobjs []interface{}
+	dseen := map[string][]byte{}
 	dnss := []DNSObj{}
 	seenDecoy = w.decoyDNS == nil
 	for i := range dl.Items {
@@ -577,7 +672,7 @@ func (w *world) refresh() ([]CertObj, []DNSObj, []string, error) {
 		if err := json.Unmarshal(b, d); err != nil {
 			return nil, nil, nil, err
 		}
-		dobjs = append(dobjs, d)
+		dseen[d.Namespace+"/"+d.Name] = b
 		if d.Namespace == ns {
 			dnss = append(dnss, projDNS(d))
 		} else if w.decoyDNS != nil && d.Namespace == otherNs && d.Name == w.decoyDNS.Name {
@@ -592,16 +687,23 @@ func (w *world) refresh() ([]CertObj, []DNSObj, []string, error) {
 	if !seenDecoy {
 		complaints = append(complaints, "decoy DNSEndpoint in other namespace deleted")
 	}
-	if err := w.cmIdx.Replace(cobjs, ""); err != nil {
+	if err := deliverTo(w.cmIdx, w.cmDelivered, cseen, func(b []byte) (interface{}, error) {
+		c := &cmapi.Certificate{}
+		return c, json.Unmarshal(b, c)
+	}); err != nil {
 		return nil, nil, nil, err
 	}
-	if err := w.dnsIdx.Replace(dobjs, ""); err != nil {
+	if err := deliverTo(w.dnsIdx, w.dnsDelivered, dseen, func(b []byte) (interface{}, error) {
+		d := &extdnsapi.DNSEndpoint{}
+		return d, json.Unmarshal(b, d)
+	}); err != nil {
 		return nil, nil, nil, err
 	}
 	sort.Slice(certs, func(i, j int) bool { return certs[i].Name < certs[j].Name })
 	sort.Slice(dnss, func(i, j int) bool { return dnss[i].Name < dnss[j].Name })
 	w.cm.ClearActions()
 	w.dns.ClearActions()
+	w.lastCerts, w.lastDNS = certs, dnss
 	return certs, dnss, complaints, nil
 }
 
@@ -642,13 +744,25 @@ func (w *world) step(st Step) (so StepObs) {
 			so.Panic = fmt.Sprint(r)
 		}
 	}()
+	so.CacheMutated = []string{}
 	vs := buildVS(st.VS)
 	w.cmFaults = append([]string(nil), st.CMFaults...)
 	w.dnsFaults = append([]string(nil), st.DNSFaults...)
+	// does the lister reflect the cluster?  (it does unless an earlier synchronization wrote into it)
+	if cc, dc := w.cacheView(); !reflect.DeepEqual(cc, w.lastCerts) || !reflect.DeepEqual(dc, w.lastDNS) {
+		if !reflect.DeepEqual(cc, w.lastCerts) {
+			so.CM.Cache = &cc
+		}
+		if !reflect.DeepEqual(dc, w.lastDNS) {
+			so.DNS.Cache = &dc
+		}
+	}
+	before := w.snapshot()
 	err := w.cmSync(quietCtx, vs.DeepCopy())
 	so.CM.Err = errClass(err)
 	err = w.dnsSync(quietCtx, vs.DeepCopy())
 	so.DNS.Err = errClass(err)
+	so.CacheMutated = w.mutated(before)
 	var u1, u2 []string
 	so.CM.Log, u1 = collect(w.cm.Actions(), "certificates")
 	so.DNS.Log, u2 = collect(w.dns.Actions(), "dnsendpoints")
@@ -1011,9 +1125,14 @@ func genCase(r *vh.Rng, id int) *Case {
 	}
 	v := baseVS(r)
 	nsteps := 3 + r.Intn(6)
+	prevFaulty := false
 	for i := 0; i < nsteps; i++ {
 		kind := "first"
-		if i > 0 {
+		if i > 0 && prevFaulty && r.Chance(2, 3) {
+			// the work queue retries the item after a failed synchronization: same VirtualServer,
+			// no fault this time
+			kind = "retry"
+		} else if i > 0 {
 			switch k := r.Intn(20); {
 			case k < 10:
 				kind = "edit"
@@ -1046,10 +1165,11 @@ func genCase(r *vh.Rng, id int) *Case {
 			}
 		}
 		st := Step{VS: cloneVS(v), Kind: kind}
-		if flt {
+		if flt && kind != "retry" {
 			st.CMFaults = genFaults(r, c.Class == "faults")
 			st.DNSFaults = genFaults(r, c.Class == "faults")
 		}
+		prevFaulty = len(st.CMFaults) > 0 || len(st.DNSFaults) > 0
 		c.Steps = append(c.Steps, st)
 	}
 	return c
@@ -1125,7 +1245,23 @@ func witnesses() []*Case {
 	edited := mk("hand-edited-secretname", nop, nop)
 	edited.InitCerts = []CertObj{{Name: "s1", Owner: "uid-a", DNS: []string{"a.example.com"}, Secret: "s9", IName: "iss-1", IKind: "Issuer",
 		Usages: []string{"digital signature", "key encipherment"}}}
-	ws = append(ws, drift, edited)
+	// an edit whose Update fails (conflict / internal error), the retry, one more synchronization:
+	// the cluster object must converge on the first synchronization that returns nil
+	failRetry := func(name string, f1, f2 func(v *VSIn), cmf, dnsf []string) *Case {
+		c := mk(name, f1, f2)
+		c.Steps[1].CMFaults, c.Steps[1].DNSFaults = cmf, dnsf
+		c.Steps[2].Kind = "retry"
+		c.Steps = append(c.Steps, Step{VS: cloneVS(c.Steps[2].VS), Kind: "resync"})
+		return c
+	}
+	ws = append(ws, drift, edited,
+		failRetry("cert-update-fails-then-retry", nop, func(v *VSIn) { v.TLS.CM.CommonName = "cn.example.com"; v.Labels = []KV{{"app", "x"}} }, []string{"conflict"}, nil),
+		failRetry("cert-update-internal-error-then-retry", nop, func(v *VSIn) { v.Host = "b.example.com" }, []string{"internal"}, nil),
+		failRetry("dns-update-fails-then-retry", func(v *VSIn) { v.TLS = nil; v.XDNS.Enable = true }, func(v *VSIn) { v.XDNS.TTL = 300; v.Labels = []KV{{"app", "x"}} }, nil, []string{"conflict"}),
+		failRetry("dns-update-internal-error-then-retry", func(v *VSIn) { v.TLS = nil; v.XDNS.Enable = true }, func(v *VSIn) {
+			ep := []ExtEp{{IP: "10.0.0.2"}}
+			v.Endpoints = &ep
+		}, nil, []string{"internal"}))
 	for i, c := range ws {
 		c.ID = i
 	}
